@@ -43,6 +43,8 @@ def units(tier, seed):
     for off, sc in [(0.0, 1.0), (1e4, 1e-3), (1e4, 1.0), (0.0, 1e-3)]:
         for i in range(0, len(vs), 6):
             u.append([{"v": v, "off": off, "sc": sc} for v in vs[i : i + 6]])
+    cent = [[-1.0, 0.0, 1.0], [-2.0, -1.0, 1.0, 2.0], [-5.0, 0.0, 5.0], [-3.0, 1.0, 2.0], [-1.0, -1.0, 2.0], [-2.0, -2.0, -1.0, 5.0], [0.5, -0.5, 1.5, -1.5, 0.0]]
+    u.append([{"v": v, "off": 0.0, "sc": 1.0} for v in cent])  # training mean exactly zero
     u.append([{"invalid": True}])
     u.append([{"two-instances": True}])
     return u
